@@ -39,13 +39,16 @@ XLITS = [('3.0b', '3'), ('1.5b', '3/2'), ('0.75B', '3/4'), ('.5b', '1/2'), ('2.b
          ('0.3k', '1536/5'), ('1.4995k', None), ('0.0005k', None), ('0.3kb', '300'), ('0.0015kb', '3/2'), ('2.9995kib', None),
          ('1.0000000000000000k', '1024'), ('1.5000000000000000k', '1536'), ('000000000000000000001k', '1024'),
          ('0.3000000000000000000000k', '1536/5'), ('3.000000000000000000b', '3'), ('00000000000000000000003', '3'),
+         ('1.0000000000000000009k', None), ('0.0000000000000000009t', None), ('1.4999999999999999999999k', None), ('2.99999999999999999999999k', None),
          ('15.000000000000001k', None), ('14.999999999999999k', None), ('2.9999999999999999k', None), ('3.0000000000000001k', None),
          ('1000000000000.000000000000000t', 'huge'), ('1237940039285.380274899124224t', 'huge'), ('99999999999999999999999999k', 'huge'),
          ('99999999999999999999.999999999999999tib', 'huge'), ('340282366920938463463374607431768211456b', 'huge'), ('18446744073709551616', 'huge'),
          ('18446744073709551615k', 'huge')]
 # a literal as operand of arithmetic keeps its fraction of a byte: (expression, exact value)
 XEXPRS = [('0.3k * 10', '3072'), ('0.1k + 2.9k', '3072'), ('0.3 * 1k', '1536/5'), ('1.5b * 2', '3'), ('3.5k - 0.5k', '3072'), ('0.3k * 5', '1536'),
-          ('1.5k / 1', '1536'), ('0.75b + 0.25b', '1')]
+          ('1.5k / 1', '1536'), ('0.75b + 0.25b', '1'),
+          # written without blanks, and with signed literals
+          ('1k*2', '2048'), ('2*1k', '2048'), ('1k+1', '1025'), ('1.5k-512', '1024'), ('3m/1k', '3072'), ('2k + -1k', '1024'), ('-1k + 2k', '1024'), ('2k - -1k', '3072'), ('1k*3', '3072')]
 # two literals in one condition whose spellings differ only in the decimal point, the letter case or a blank
 XPAIRS = [('2.5k', '25k'), ('25k', '2.5k'), ('1.5k', '15k'), ('1.0k', '10k'), ('0.3k', '3k'), ('1.5kb', '15kb'), ('3b', '3k'), ('3k', '3kb'), ('3kib', '3kb'), ('.3k', '3k'), ('0.30k', '0.3k'),
           ('1.536k', '1536'), ('1536', '1.5k'), ('1K', '1k'), ('1 k', '1kb')]
